@@ -1009,32 +1009,11 @@ func (p *PikeVM) SearchWithCapturesAt(haystack []byte, at int) *MatchWithCapture
 		return nil
 	}
 
-	if at == len(haystack) {
-		// At end of input - check if empty string matches at this position.
-		// Must use matchesEmptyAt with full haystack context for correct
-		// look assertion evaluation (e.g., \B needs previous byte context).
-		if p.matchesEmptyAt(haystack, at) {
-			return &MatchWithCaptures{
-				Start:    at,
-				End:      at,
-				Captures: p.buildCapturesResult(nil, at, at),
-			}
-		}
-		return nil
-	}
-
-	if len(haystack) == 0 {
-		// Check if empty string matches (haystack is empty, pos=0)
-		if p.matchesEmptyAt(haystack, 0) {
-			return &MatchWithCaptures{
-				Start:    0,
-				End:      0,
-				Captures: p.buildCapturesResult(nil, 0, 0),
-			}
-		}
-		return nil
-	}
-
+	// Note: at == len(haystack) (including the empty haystack) is NOT special-cased.
+	// The regular search loops handle it: they seed the start state's epsilon
+	// closure at 'at' and check for a match without consuming input, which also
+	// records the capture groups that participate in an empty match
+	// (e.g. `()` on "" must report [0 0 0 0], not [0 0 -1 -1]).
 	if p.nfa.IsAnchored() {
 		return p.searchAtWithCaptures(haystack, at)
 	}
@@ -2196,22 +2175,11 @@ func (p *PikeVM) SearchWithSlotTableCapturesAt(haystack []byte, at int) *MatchWi
 	p.internalState.SlotTable.SetActiveSlots(totalSlots)
 	p.internalState.NextSlotTable.SetActiveSlots(totalSlots)
 
-	numGroups := p.nfa.CaptureCount()
-
-	if at == len(haystack) {
-		if p.matchesEmptyAt(haystack, at) {
-			return p.buildCapturesFromSlots(nil, at, at)
-		}
-		return nil
-	}
-	if len(haystack) == 0 {
-		if p.matchesEmpty() {
-			return p.buildCapturesFromSlots(nil, 0, 0)
-		}
-		return nil
-	}
-	_ = numGroups
-
+	// Note: at == len(haystack) (including the empty haystack) is NOT special-cased.
+	// The regular search loops seed the start state's epsilon closure at 'at' and
+	// check for a match without consuming input, so the capture groups that
+	// participate in an empty match are recorded (e.g. `(a*)` on "a" searched
+	// from 1 must report [1 1 1 1], not [1 1 -1 -1]).
 	if p.nfa.IsAnchored() {
 		return p.searchWithSlotTableCapturesAnchored(haystack, at)
 	}
